@@ -51,9 +51,9 @@ PROPS = {
     'C15': {
         'e3': ['srcloc', 'reader_locs'],
         'e3_always': ['reader_locs'],
-        'units': ['srcloc', 'reader'],
-        'decided': 'Srcloc arithmetic: advance follows the byte (newline, tab stop, other), combine/ext start at the earlier start and never reach beyond the hull of their arguments, add_onto/ending/len/src_location_min/max; ParsePartialResult::push (of which whole-text parsing is the fold): the transition function is called with the location of the byte being consumed and the cursor advances by exactly that byte on every non-error step',
-        'not_covered': ['parse_sexp_step itself (300-line state machine): token extents, list extents and error locations are a bounded stand-in only (E3: all texts of <= 4 tokens over 13 token kinds against an independent position table, byte-at-a-time vs whole)', 'compiler-generated locations'],
+        'units': ['srcloc', 'reader', 'readerstep'],
+        'decided': 'Srcloc arithmetic: advance follows the byte (newline, tab stop, other), combine/ext start at the earlier start and never reach beyond the hull of their arguments, add_onto/ending/len/src_location_min/max; ParsePartialResult::push (of which whole-text parsing is the fold): the transition function is called with the location of the byte being consumed and the cursor advances by exactly that byte on every non-error step; parse_sexp_step itself, for leaf tokens: a token\'s location starts at the byte that opens it, keeps that start while the token is read and is only extended over the byte just consumed, and the emitted word / string carries that location (words starting with # excepted: they become the primitive they name)',
+        'not_covered': ['list extents and error locations inside parse_sexp_step: bounded stand-in only (E3: all texts of <= 4 tokens over 13 token kinds against an independent position table, byte-at-a-time vs whole)', 'compiler-generated locations'],
     },
     'C20': {
         'units': ['tables'],
